@@ -365,3 +365,56 @@ def c07_mul_mod_special_carry_overflow(f, line, impl, model):
     rhs2 = ((s // K - 1) % B) & c
     r = (s % K - rhs2) % K
     return impl == (f'{r:x}' if t[0].startswith('c07.u.') else f'{n}:{r:x}')
+
+
+def c08_modulus_one(f, line, impl, spec):
+    """C08-modulus-one-not-canonical: for modulus 1 every params constructor computes
+    one = (MAX mod 1) + 1 = 1 (not < m).  Matches only
+      * `c08.params <kind> <n> 1`: the implementation's line is the spec's line with `one=0` replaced by `one=1`;
+      * `c08.hist <kind> <n> 1 <steps>`: the spec is `0:0` at every step, the implementation prints, per step,
+        `0:0`, `1:0` (fixed-width forms: stored 1, retrieve() still reduces to 0) or `1:1` (boxed forms: retrieve()
+        returns 1), with nothing but `0:0` before the first `one` step (the only source of the value 1), at least
+        one token other than `0:0`, and optionally a final `panic` (the `< modulus` debug assertions) after such a step.
+    Any other output for modulus 1 (a value other than 0/1, a boxed-only token in a fixed-width history, a
+    non-zero value before `one`, a wrong token count) is still a VIOLATION."""
+    t = line.split()
+    if t[0] == 'c08.params' and len(t) == 4:
+        if int(t[3], 16) != 1 or ' one=0 ' not in spec:
+            return False
+        return impl == spec.replace(' one=0 ', ' one=1 ', 1)
+    if t[0] != 'c08.hist' or len(t) != 5 or int(t[3], 16) != 1:
+        return False
+    kind, steps = t[1], t[4].split(';')
+    it, st = impl.split(), spec.split()
+    if not it or it[0] != 'mod=1' or st != ['mod=1'] + ['0:0'] * len(steps):
+        return False
+    toks = it[1:]
+    panicked = bool(toks) and toks[-1] == 'panic'
+    if panicked:
+        toks = toks[:-1]
+    if (not panicked and len(toks) != len(steps)) or len(toks) > len(steps):
+        return False
+    rep = {'const': 'const', 'dyn': 'dyn', 'dynv': 'dyn', 'boxed': 'boxed', 'boxedv': 'boxed'}.get(kind)
+    if rep is None:
+        return False
+    seen_one = False
+    bad = 0
+    for i, s in enumerate(steps):
+        name = s.split(',')[0].split('.')[0]
+        if name == 'conv':
+            rep = {'const': 'dyn', 'dyn': 'boxed', 'boxed': 'boxed'}[rep]
+        if name == 'one':
+            seen_one = True
+        if i >= len(toks):
+            break
+        tok = toks[i]
+        if tok == '0:0':
+            continue
+        if not seen_one:
+            return False
+        if tok != ('1:1' if rep == 'boxed' else '1:0'):
+            return False
+        bad += 1
+    if panicked:
+        return seen_one
+    return bad > 0
